@@ -57,6 +57,7 @@ def run(ctx):
     def spy(filename, *a, **kw):
         seen_kwargs.append(dict(kw)); return real_open(filename, *a, **kw)
     reqs, metas = [], []
+    home = os.getcwd()
     try:
         simfile.open = spy
         for i in range(ctx.scale(120, 1500)):
@@ -66,12 +67,20 @@ def run(ctx):
             enc = rng.choice([None, None, "utf-8", "cp1252"])
             kw = {"strict": strict}
             if enc: kw["encoding"] = enc
-            for fsname in ("native", "memory"):
-                if fsname == "native":
+            # besides the absolute address: a trailing separator, a bare relative name (the parent being the current directory /
+            # the filesystem's root) and a pack that is the root of its filesystem - discovery is the same listing each time
+            extra = ["native-trailing-slash", "native-relative", "memory-relative", "memory-root"][i % 4]
+            for fsname in ("native", "memory", extra):
+                os.chdir(home)
+                if fsname.startswith("native"):
                     root = os.path.join(tmp, "p%d" % i); fstools.make_native(pack, root)
                     fsys = NativeOSFS(); join = os.path.join; packdir = root
+                    if fsname == "native-trailing-slash": packdir = root + "/"
+                    if fsname == "native-relative": os.chdir(tmp); packdir = "p%d" % i
+                elif fsname == "memory-root":
+                    fsys = fstools.make_memory(pack); join = fs.path.join; packdir = "/"
                 else:
-                    fsys = fstools.make_memory({"Pack": pack}); join = fs.path.join; packdir = "/Pack"
+                    fsys = fstools.make_memory({"Pack": pack}); join = fs.path.join; packdir = "/Pack" if fsname == "memory" else "Pack"
                 case = {"fs": fsname, "pack": _names(pack), "strict": strict, "ignore_duplicate": ign, "encoding": enc, "stray": stray}
                 res.case(case, nontrivial=any(isinstance(v, dict) and sum(1 for n in v if n.lower().endswith((".sm", ".ssc"))) >= 2 for v in pack.values()))
                 listing = fsys.listdir(packdir)
@@ -90,7 +99,7 @@ def run(ctx):
                 res.traces += 1
                 if dirs != exp_dirs:
                     res.violation(case, "pack lists something other than its immediate sub-directories that directly contain a simfile", impl=dirs, expected=exp_dirs); continue
-                reqs.append({"op": "dir.pack", "entries": entries}); metas.append(("pack", case, [os.path.basename(d) if fsname == "native" else fs.path.basename(d) for d in dirs]))
+                reqs.append({"op": "dir.pack", "entries": entries}); metas.append(("pack", case, [os.path.basename(d) if fsname.startswith("native") else fs.path.basename(d) for d in dirs]))
                 # each directory -------------------------------------------------------------------
                 via_pack = []
                 for e in entries:
@@ -183,8 +192,9 @@ def run(ctx):
                     if titles != exp_titles:
                         res.violation(case, "SimfilePack(ignore_duplicate=True).simfiles() differs from opening its directories with that setting",
                                       impl=str(titles)[:200], expected=str(exp_titles)[:200])
-                if fsname == "native": shutil.rmtree(root, ignore_errors=True)
+                if fsname.startswith("native"): shutil.rmtree(root, ignore_errors=True)
     finally:
+        os.chdir(home)
         simfile.open = real_open
         shutil.rmtree(tmp, ignore_errors=True)
     resp = ctx.lean.eval_sharded(reqs)
